@@ -430,10 +430,16 @@ class SpyMetric:
         self.kind = kind  # "mean" | "count" | "const"
         self.__name__ = name
 
-    def __call__(self, y_true, y_pred):
+    def __call__(self, y_true, y_pred, row_tag=None):
         ctx = kernel.current()
         rows = [int(r) for r in np.asarray(y_true).reshape(-1)]
         yp = np.asarray(y_pred, dtype=float).reshape(-1)
+        if row_tag is not None:
+            # a per-sample parameter that repeats the row id: it must travel with its row
+            tags = [int(t) for t in np.asarray(row_tag).reshape(-1)]
+            ctx.probe("sample_param_seen")
+            if tags != rows:
+                ctx.scratch.setdefault("row_tag_mismatch", []).append((self.name, rows[:6], tags[:6]))
         if self.kind == "mean":
             val = float(yp.mean()) if len(yp) else float("nan")
         elif self.kind == "count":
